@@ -202,6 +202,13 @@ func c17() {
 	for _, k := range []int{3, 4, 5, 6, 7, 8, 9, 10, 12, 16} {
 		hists = append(hists, hist{kind: "descriptor-limit", k: k})
 	}
+	// the same with a disassembler that, like the real `go tool objdump`, ignores failures of its own writes and exits 0
+	for _, k := range []int{64, 100, 4096, 10000, 65536, 100000, 200000, total - 10} {
+		hists = append(hists, hist{kind: "file-size-limit-lenient-tool", k: k})
+	}
+	for _, k := range []int{1, 2, 3, 5, 8, 13, 21, 34} {
+		hists = append(hists, hist{kind: "enospc-everywhere-lenient-tool", k: k})
+	}
 	// a second run that overlaps a first one which is still writing: it must not reuse what is there so far
 	for _, k := range []int{0, 100, 4096, 8192, 20000, total / 2, total - 100} {
 		hists = append(hists, hist{kind: "overlapping-run", k: k})
@@ -325,6 +332,11 @@ func c17() {
 			run.Count("syscall_granular_crash_points", 1)
 		case "file-size-limit":
 			step(vlib.ToolRun{Argv: append([]string{"/usr/bin/prlimit", fmt.Sprintf("--fsize=%d", h.k)}, argv(target)...), FakeMode: "emit", Listing: fx.listA}, fmt.Sprintf("run 1: RLIMIT_FSIZE=%d bytes", h.k))
+		case "file-size-limit-lenient-tool":
+			step(vlib.ToolRun{Argv: append([]string{"/usr/bin/prlimit", fmt.Sprintf("--fsize=%d", h.k)}, argv(target)...), FakeMode: "emit-lenient", Listing: fx.listA}, fmt.Sprintf("run 1: RLIMIT_FSIZE=%d bytes, the disassembler ignores its write errors", h.k))
+		case "enospc-everywhere-lenient-tool":
+			step(vlib.ToolRun{Argv: argv(target), FakeMode: "emit-lenient", Listing: fx.listA, Strace: []string{"-f", "-e", "trace=write", "-e", fmt.Sprintf("inject=write:error=ENOSPC:when=%d+", h.k)}},
+				fmt.Sprintf("run 1: every write of every process (profiler and disassembler) from its #%d on fails with ENOSPC; the disassembler ignores it", h.k))
 		case "descriptor-limit":
 			step(vlib.ToolRun{Argv: append([]string{"/usr/bin/prlimit", fmt.Sprintf("--nofile=%d", h.k)}, argv(target)...), FakeMode: "emit", Listing: fx.listA}, fmt.Sprintf("run 1: RLIMIT_NOFILE=%d", h.k))
 		case "enospc-at-write":
